@@ -10,6 +10,7 @@ use serde_json::json;
 use std::collections::{BTreeMap, BTreeSet, HashMap};
 use verif_harness::refmodel::*;
 use verif_harness::statespace::*;
+use verif_harness::vsched::{self, Call, Driver, Execution, Recorder, SeqSpec, Val};
 use verif_harness::*;
 
 /// Descriptor in reference form.
@@ -107,7 +108,7 @@ enum Op {
     Gather,
 }
 
-#[derive(Default, Clone)]
+#[derive(Default, Clone, PartialEq, Eq, Hash)]
 struct Model {
     registered: BTreeMap<BTreeSet<String>, usize>,
     ids: BTreeSet<String>,
@@ -244,6 +245,117 @@ impl Sut for RegSut {
     }
 }
 
+// ------------------------------------------------------ concurrent part (E1)
+
+/// Threads issuing register / unregister / gather on one shared Registry;
+/// the history must be linearizable w.r.t. the reference registry.
+struct RegDriver {
+    pool: Vec<(&'static str, Vec<D>)>,
+    start: Vec<usize>,
+    programs: Vec<Vec<Op>>,
+}
+
+struct RegSpec {
+    pool: Vec<(&'static str, Vec<D>)>,
+    start: Vec<usize>,
+}
+
+impl SeqSpec for RegSpec {
+    type State = Model;
+    fn init(&self) -> Model {
+        let mut m = Model::default();
+        for &i in &self.start {
+            m.register(i, &self.pool[i].1);
+        }
+        m
+    }
+    fn apply(&self, st: &Model, call: &Call) -> Option<Model> {
+        let mut m = st.clone();
+        let i = match call.arg {
+            Val::I(i) => i as usize,
+            _ => 0,
+        };
+        let got = match &call.ret {
+            Val::S(s) => s.clone(),
+            _ => String::new(),
+        };
+        let ok = |exp: Exp| match exp {
+            Exp::Ok => got == "Ok",
+            Exp::AlreadyReg => got == "Err(AlreadyReg)",
+            Exp::AnyErr => got != "Ok",
+        };
+        match call.name.as_str() {
+            "register" => {
+                let e = m.register(i, &self.pool[i].1);
+                if ok(e) { Some(m) } else { None }
+            }
+            "unregister" => {
+                let e = m.unregister(&self.pool[i].1);
+                if ok(e) { Some(m) } else { None }
+            }
+            "gather" => {
+                if got == format!("{:?}", m.gather(&self.pool)) { Some(m) } else { None }
+            }
+            _ => None,
+        }
+    }
+}
+
+fn res_str(r: prometheus::Result<()>) -> Val {
+    Val::S(match r {
+        Ok(()) => "Ok".into(),
+        Err(prometheus::Error::AlreadyReg) => "Err(AlreadyReg)".into(),
+        Err(_) => "Err(other)".into(),
+    })
+}
+
+impl Driver for RegDriver {
+    type Shared = Registry;
+    fn name(&self) -> String {
+        let nm = |o: &Op| match o {
+            Op::Register(i) => format!("register({})", self.pool[*i].0),
+            Op::Unregister(i) => format!("unregister({})", self.pool[*i].0),
+            Op::Gather => "gather".to_string(),
+        };
+        format!("registry start {:?} {:?}", self.start.iter().map(|i| self.pool[*i].0).collect::<Vec<_>>(), self.programs.iter().map(|p| p.iter().map(nm).collect::<Vec<_>>()).collect::<Vec<_>>())
+    }
+    fn threads(&self) -> usize {
+        self.programs.len()
+    }
+    fn setup(&self) -> Registry {
+        let r = Registry::new();
+        for &i in &self.start {
+            r.register(real_collector(i, &self.pool[i].1)).unwrap();
+        }
+        r
+    }
+    fn body(&self, t: usize, sh: &Registry, rec: &Recorder) {
+        for op in &self.programs[t] {
+            match op {
+                Op::Register(i) => rec.call("register", Val::I(*i as i64), || res_str(sh.register(real_collector(*i, &self.pool[*i].1)))),
+                Op::Unregister(i) => rec.call("unregister", Val::I(*i as i64), || res_str(sh.unregister(real_collector(*i, &self.pool[*i].1)))),
+                Op::Gather => rec.call("gather", Val::Unit, || Val::S(format!("{:?}", sh.gather().iter().map(|mf| RFamily::from_proto(mf).key(true)).collect::<Vec<_>>()))),
+            };
+        }
+    }
+    fn epilogue(&self, sh: &Registry, rec: &Recorder) {
+        rec.call("gather", Val::Unit, || Val::S(format!("{:?}", sh.gather().iter().map(|mf| RFamily::from_proto(mf).key(true)).collect::<Vec<_>>())));
+    }
+    fn check(&self, _sh: &Registry, x: &Execution) -> Result<String, (String, String)> {
+        match vsched::linearizable(&RegSpec { pool: self.pool.clone(), start: self.start.clone() }, &x.calls) {
+            Some(_) => Ok(x.calls.iter().map(|c| format!("{}:{:?}", c.name, c.ret)).collect::<Vec<_>>().join(";")),
+            None => Err(("concurrent:not-linearizable".into(), format!("history not linearizable w.r.t. the reference registry: {}", x.calls.iter().map(|c| c.show()).collect::<Vec<_>>().join("; ")))),
+        }
+    }
+    fn spec(&self) -> serde_json::Value {
+        json!({"kind": "registry", "start": self.start, "programs": self.programs})
+    }
+}
+
+fn reg_driver_from_spec(v: &serde_json::Value) -> Option<RegDriver> {
+    Some(RegDriver { pool: pool(), start: serde_json::from_value(v["start"].clone()).ok()?, programs: serde_json::from_value(v["programs"].clone()).ok()? })
+}
+
 fn parse_op(s: &str, pool: &[(&'static str, Vec<D>)]) -> Op {
     let idx = |n: &str| pool.iter().position(|(k, _)| *k == n).unwrap();
     if let Some(r) = s.strip_prefix("Register(") {
@@ -267,6 +379,9 @@ fn main() {
     let pool = pool();
     if let Some(p) = &args.replay {
         let doc = read_replay(p);
+        if doc["engine"] == "vsched" {
+            std::process::exit(vsched::replay_cli("C06", p, &doc, reg_driver_from_spec));
+        }
         let ops: Vec<Op> = replay_value_ops(&doc).iter().map(|s| parse_op(s, &pool)).collect();
         let sut = RegSut { n: pool.len(), pool };
         let r1 = sut.replay(&ops);
@@ -298,6 +413,7 @@ fn main() {
         depth
     );
     rep.bounds = json!({"collectors": n, "depth_safety_net": depth});
+    let cpool = pool.clone();
     let out = explore(RegSut { pool, n }, depth, if thorough { 1500 } else { 120 }, "registry", &mut rep);
     if !out.fixpoint {
         rep.exhaustive = false;
@@ -305,6 +421,32 @@ fn main() {
             rep.cap_hit = Some(format!("depth bound {} reached before the fixpoint", depth));
         }
     }
+    // concurrent part (E1): register/unregister/gather from 2-3 threads on one registry
+    let alpha = [Op::Register(0), Op::Register(2), Op::Unregister(7), Op::Register(7), Op::Unregister(0), Op::Register(6), Op::Gather];
+    let progs: Vec<Vec<Op>> = combi::sequences_upto(alpha.len(), 2).filter(|s| !s.is_empty()).map(|s| s.iter().map(|&i| alpha[i].clone()).collect()).collect();
+    let mut drivers = vec![];
+    for i in 0..progs.len() {
+        for j in i..progs.len() {
+            if !thorough && progs[i].len() + progs[j].len() > 3 {
+                continue;
+            }
+            for start in [vec![7usize], vec![0, 7]] {
+                drivers.push(RegDriver { pool: cpool.clone(), start, programs: vec![progs[i].clone(), progs[j].clone()] });
+            }
+        }
+    }
+    for i in 0..alpha.len() {
+        for j in i..alpha.len() {
+            for k in j..alpha.len() {
+                drivers.push(RegDriver { pool: cpool.clone(), start: vec![7], programs: vec![vec![alpha[i].clone()], vec![alpha[j].clone()], vec![alpha[k].clone()]] });
+            }
+        }
+    }
+    let nd = drivers.len();
+    let results = vsched::explore_many(drivers, vsched::Mode::U, 300_000, 3, 16, |d| RegDriver { pool: d.pool.clone(), start: d.start.clone(), programs: d.programs.clone() });
+    let summary = vsched::fold_results(&mut rep, results);
+    rep.extra.insert("concurrent_part".into(), json!({"drivers": nd, "modes": summary}));
+    rep.rule.push_str(&format!(" In addition (E1): {} concurrent drivers (all pairs of programs of <=2 calls, quick: total <=3, and all triples of 1-call programs over register(k1), register(k3), unregister(k8), register(k8), unregister(k1), register(k7), gather) on one shared Registry, every interleaving at lock operations and call boundaries; histories must be linearizable w.r.t. the reference registry.", nd));
     rep.assumptions = vec![
         "disagreement inside one collector's own descriptor list, zero-descriptor collectors and collisions of the wrapping-sum collector id are not judged".into(),
         "verif_dump() of the registry is used only as de-duplication key, never as oracle".into(),
